@@ -73,14 +73,9 @@ def parseFmt : Nat → List String → Store → TheEnv → Option (Store × The
   | _, [], _, _ => none
 
 def specNum (fmt : String) (v : Int) : String :=
-  let n := v.toNat
-  match fmt with
-  | "arabic" => "ok:" ++ toString v
-  | "Roman" => if 1 ≤ v ∧ v < 5000 then "ok:" ++ roman n else "-"
-  | "roman" => if 1 ≤ v ∧ v < 5000 then "ok:" ++ romanLower n else "-"
-  | "Alph" => if 1 ≤ v ∧ v ≤ 26 then "ok:" ++ alphUpper n else "-"
-  | "alph" => if 1 ≤ v ∧ v ≤ 26 then "ok:" ++ alphLower n else "-"
-  | _ => "-"
+  match stdRepresent v fmt with
+  | some r => "ok:" ++ r
+  | none => "-"
 
 def handle : List String → String
   | ["num", fmt, v] =>
@@ -116,7 +111,8 @@ def handle : List String → String
     match parseFmt (ws.length + 1) ws [] [] with
     | some (s, env, m) =>
       let r := match evalThe (theFuel env) env s m with | .ok t => "ok:" ++ t | .error e => errStr e
-      s!"{r}\t-"
+      let sp := match substEval (theFuel env) env s m with | some t => "ok:" ++ t | none => "-"
+      s!"{r}\t{sp}"
     | none => "bad-op"
   | _ => "bad-op"
 
